@@ -81,7 +81,8 @@ def oracle_healthy(inp):
 CORRUPTIONS = ['del-data', 'del-meta', 'del-backup-first', 'del-backup-last', 'drop-unique-line', 'change-unique-hash',
                'flip-to-extern', 'move-extern-first', 'empty-manifest', 'garbage-line', 'garbage-file', 'truncate-zstd',
                'stray-root-file', 'stray-group-file', 'hidden-root', 'hidden-group', 'rename-backup', 'temp-backup',
-               'stray-in-backup', 'crlf-lines', 'none', 'temp-other-date', 'first-gone-with-temp', 'binary-garbage-line']
+               'stray-in-backup', 'crlf-lines', 'none', 'temp-other-date', 'first-gone-with-temp', 'binary-garbage-line',
+               'extern-before-its-unique']
 
 
 def corrupt(rng, root, kind):
@@ -114,6 +115,29 @@ def corrupt(rng, root, kind):
             return False
         shutil.rmtree(os.path.join(gp, backups[0]))
         os.makedirs(os.path.join(gp, '.' + g + '-00:00:00'), exist_ok=True); return True
+    if kind == 'extern-before-its-unique':
+        # inside one manifest, a non-empty extern record is moved in front of the only unique record of its hash (no
+        # earlier backup of the group stores it): order inside a backup matters
+        for g2 in groups:
+            avail = set()
+            for b2 in [x for x in sorted(os.listdir(os.path.join(root, g2))) if store.BACKUP_RE.match(x)]:
+                bp2 = os.path.join(root, g2, b2)
+                try:
+                    recs = store.read_manifest(bp2)
+                except Exception:
+                    break
+                first_unique = {}
+                for i, r in enumerate(recs):
+                    if r['unique']:
+                        first_unique.setdefault(r['hash'], i)
+                for i, r in enumerate(recs):
+                    j = first_unique.get(r['hash'])
+                    if not r['unique'] and r['size'] and r['hash'] not in avail and j is not None and j < i:
+                        recs.insert(j, recs.pop(i))
+                        store.write_manifest(bp2, recs)
+                        return True
+                avail |= {r['hash'] for r in recs if r['unique']}
+        return False
     b = rng.choice(backups)
     bp = os.path.join(gp, b)
     if kind == 'del-data':
@@ -176,6 +200,11 @@ def build_storages(ctx, hid, seed, ncorrupt):
     w = hist.World(ctx, hid, rng, max_groups=rng.randint(2, 3), max_per_group=rng.randint(1, 4))
     out = []
     try:
+        # two files with the same content from the start: the first backup of every group stores one and refers to it
+        # from the other
+        w.next_cid += 1
+        w.write(os.path.join(w.items[0], 'twin-a'), w.next_cid, 3000)
+        w.write(os.path.join(w.items[0], 'twin-b'), w.next_cid, 3000)
         for _ in range(rng.randint(3, 8)):
             w.edit()
         after_runs = []
